@@ -343,6 +343,8 @@ def translate(src, name, cflags, gname=None):
     env = {p: p for p in t.params}
     code = t.stmts([body], env, ret_kind)
     code = re.sub(r"@FIELD:(\w+)@", r"\1", code)
+    # canonical argument order (by field name), independent of the order of first use in the C text
+    t.fields = sorted(t.fields)
     args = ["(%s : %s)" % (k, "list Z" if a else "Z") for k, a in t.fields] + ["(%s : Z)" % p for p in t.params]
     gname = gname or ("gen_" + name)
     text = "Definition %s %s :=\n  %s.\n" % (gname, " ".join(args), code)
